@@ -138,21 +138,6 @@ func instOracle(cfg *Config, gs []GFlow, t *Txn) (rows []IRow, consistent bool) 
 			}
 		}
 	}
-	// declared but connected nowhere: they have a behaviour all the same (a wrong
-	// resolution may run them)
-	for i := range cfg.Flows {
-		f := &cfg.Flows[i]
-		for j := range f.Procs {
-			in := Inst{f.Name, f.Procs[j].Key}
-			for _, dn := range []string{"req", "res"} {
-				if k := in.String() + "\x00" + dn; !done[k] {
-					done[k] = true
-					o, _ := predict(&f.Procs[j], dn, has)
-					rows = append(rows, IRow{in, dn, o.Cond, o.Early})
-				}
-			}
-		}
-	}
 	return rows, consistent
 }
 
@@ -268,11 +253,11 @@ func coqSel(s Selection, fl *interner) string {
 func coqMentions(ms []Mention, keys, fl *interner) string {
 	return c.MapList(ms, func(m Mention) string {
 		by, name := splitRef(m.Ref)
-		b := "None"
+		b := "0" // flow ids start at 1
 		if by != "" {
-			b = c.Some(c.Z(fl.id(by)))
+			b = c.Z(fl.id(by))
 		}
-		return c.Tuple(c.Z(fl.id(m.Cur)), c.Tuple(c.Z(keys.id(m.Ref)), b, c.Z(keys.id(name))))
+		return "(Mn " + c.Z(fl.id(m.Cur)) + " " + c.Z(keys.id(m.Ref)) + " " + b + " " + c.Z(keys.id(name)) + ")"
 	})
 }
 
@@ -302,7 +287,7 @@ func coqCase(k *Case) string {
 	})
 	code := map[string]int64{"none": 0, "answered": 1, "error": 2}[t.Result]
 	refs := c.MapList(k.Graphs, func(g GFlow) string {
-		return c.Tuple(c.Z(fl.id(g.Name)), coqMentions(g.ReqRefs, keys, fl), coqMentions(g.ResRefs, keys, fl))
+		return "(RF " + c.Z(fl.id(g.Name)) + " " + coqMentions(g.ReqRefs, keys, fl) + " " + coqMentions(g.ResRefs, keys, fl) + ")"
 	})
 	inst := func(i Inst) string { return c.Tuple(c.Z(fl.id(i.Flow)), c.Z(keys.id(i.Name))) }
 	var decl []Inst
@@ -323,13 +308,13 @@ func coqCase(k *Case) string {
 		}
 	}
 	irows := c.MapList(k.Insts, func(r IRow) string {
-		return c.Tuple(c.Z(fl.id(r.Inst.Flow)), c.Z(keys.id(r.Inst.Name)), c.B(r.Dir == "req"), c.Z(condID(r.Cond)), c.B(r.Early))
+		return "(IR " + c.Z(fl.id(r.Inst.Flow)) + " " + c.Z(keys.id(r.Inst.Name)) + " " + c.B(r.Dir == "req") + " " + c.Z(condID(r.Cond)) + " " + c.B(r.Early) + ")"
 	})
 	marks := c.MapList(k.Marks, func(m *Inst) string {
 		if m == nil {
-			return "None"
+			return "(0, 0)"
 		}
-		return c.Some(inst(*m))
+		return inst(*m)
 	})
 	return c.Tuple(flows, c.Tuple(s1, s2), c.B(t.Dir == "req"), c.Tuple(evs, c.Z(code)),
 		coqQuotaGroups(&k.Config, keys, fl), refs, c.MapList(decl, inst), irows, marks)
@@ -379,6 +364,11 @@ func runConfig(o *c.Out, cfg Config, txns []Txn, label string) {
 	st, err := Load(&cfg)
 	if err != nil {
 		o.Count("loader-rejected")
+		if strings.Contains(err.Error(), "invalid condition for processor") {
+			// a connection from "G.k" whose condition is checked against the processor the
+			// flow ITSELF declares under k (another type): see notes/C04.md, fix-F-C04e
+			o.Count("loader-rejected:condition-checked-against-the-flows-own-processor-of-that-key")
+		}
 		loadErrors++
 		if loadErrors <= 5 {
 			fmt.Fprintf(os.Stderr, "loader rejected a %s configuration: %v\n", label, err)
